@@ -62,6 +62,25 @@ Theorem ply_write_read_property : forall o m, o_writers o = default_writers -> w
 Proof. exact ply_property_default. Qed.
 Print Assumptions ply_write_read_property.
 
+(* ... and without [no_st] (round 4): EVERY mesh accepted by [wf_mesh], ply.Write's table with unspecified properties on or
+   off.  r' is the mesh all three files decode to; it has the topology and indices of [expected o m] and the same
+   attributes — literally r' = r except for a point cloud carrying TexCoord with unspecified properties on, where
+   ply.ReadMesh lists the attributes in its own order (a permutation; the order of attributes is no observable of a
+   modeling.Mesh).  The only hypothesis beyond well-formedness and "some vertex property is written": in that class no
+   user attribute is itself named "s" or "t" ([no_user_st], needed: [ply_points_st_duplicate_refuted]). *)
+Theorem ply_write_read_property_all : forall o m,
+  o_writers o = default_writers -> wf_mesh m = true ->
+  (w_topo m = TPoint -> has_tex m = true -> o_unspec o = true -> no_user_st m = true) ->
+  (w_n m = 0%nat \/ vertex_props (rview o m) <> []) ->
+  let gs := map (group_of m) (effective_writers o m) in
+  exists fa fl fb r r',
+    write o ASCII m = Ok fa /\ write o BinLE m = Ok fl /\ write o BinBE m = Ok fb /\
+    expected o m = Ok r /\ read_mesh fa = Ok r' /\ read_mesh fl = Ok r' /\ read_mesh fb = Ok r' /\
+    m_topo r' = m_topo r /\ m_idx r' = m_idx r /\ Permutation (m_attrs r') (m_attrs r) /\
+    described ASCII gs m fa /\ described BinLE gs m fl /\ described BinBE gs m fb.
+Proof. exact ply_property_all. Qed.
+Print Assumptions ply_write_read_property_all.
+
 (* ---- header: what Header.Write emits parses back to the same format, elements, counts and property list ---- *)
 Theorem ply_header_roundtrip : forall f gs m,
   parse_header (header_lines f (header_elems gs m))
